@@ -210,9 +210,9 @@ fn observe_colours(o: &SvgOptions) -> Result<([u8; 4], [u8; 4], [u8; 4]), String
         return Err("probe render returned the empty string".into());
     }
     let root = xml::parse(&doc).map_err(|e| format!("probe render not well-formed: {}", e))?;
-    let bg = root.children.first().and_then(|r| r.attr("fill")).and_then(parse_hex_colour).ok_or("probe: background fill is not a #rrggbb[aa] colour")?;
+    let bg = root.children.iter().find(|c| c.name == "rect").and_then(|r| r.attr("fill")).and_then(parse_hex_colour).ok_or("probe: background fill is not a #rrggbb[aa] colour")?;
     let mc = root.children.iter().find(|c| c.name == "path").and_then(|p| p.attr("fill")).and_then(parse_hex_colour).ok_or("probe: module fill is not a #rrggbb[aa] colour")?;
-    let ib = root.children.iter().enumerate().filter(|(i, c)| *i > 0 && c.name == "rect").map(|(_, c)| c).last().and_then(|r| r.attr("fill")).and_then(parse_hex_colour).ok_or("probe: image background fill is not a #rrggbb[aa] colour")?;
+    let ib = root.children.iter().filter(|c| c.name == "rect").skip(1).last().and_then(|r| r.attr("fill")).and_then(parse_hex_colour).ok_or("probe: image background fill is not a #rrggbb[aa] colour")?;
     Ok((mc, bg, ib))
 }
 
